@@ -87,6 +87,18 @@ def lock_l1(ctx, files):
                                    rec["family"], rec["mode"], ",".join(sorted(invs)), "; ".join(rec.get("l1", [])[:2])),
                                **{"class": "%s|%s|%s" % (",".join(sorted(invs)), json.dumps(d["prog"], sort_keys=True), json.dumps(rec["inject"], sort_keys=True))},
                                input=d, detail=rec.get("detail", "")))
+    # "read locks may be shared among readers": some explored schedule must show two readers inside together
+    shared = 0
+    with open(res.out_path, errors="replace") as fh:
+        for line in fh:
+            if line.startswith('<<"SHARED"'):
+                shared += 1
+    two_readers = any(sum(1 for a, ops in json.loads(r)["prog"].items() for o in ops if o["op"] == "read" or (o["op"] == "hold" and o.get("mode") == "r")) >= 2
+                      and json.loads(r)["mode"] == "dfs" for r in recs[:50000:7])
+    if two_readers and shared == 0:
+        violations.append(dict(kind="readers-never-share", **{"class": "readers-never-share"},
+                               what="programs with two readers were explored exhaustively (bounded DFS) and in no schedule did two read-lock holders "
+                                    "overlap: read locks exclude each other", input=dict(traces=len(recs))))
     return recs, violations
 
 
